@@ -19,7 +19,9 @@ FNoNl == <<EFld("p"), ELit(Cp("x"))>>
 FNlMid == <<EEsc("n"), EFld("s")>>
 LeafSet == { [k |-> "true"], [k |-> "name", s |-> Cp("x")], [k |-> "print"], [k |-> "print0"],
              [k |-> "printf", f |-> FNl], [k |-> "printf", f |-> FNoNl], [k |-> "printf", f |-> <<>>],
-             [k |-> "printf", f |-> FNlMid],
+             [k |-> "printf", f |-> FNlMid], [k |-> "printf", f |-> <<EFld("p"), EAscii(10)>>], [k |-> "printf", f |-> <<EFld("p"), EAscii(12)>>],
+             [k |-> "printf", f |-> <<EFld("p"), EEsc("f")>>], [k |-> "printf", f |-> <<EFld("p"), EEsc("0")>>], [k |-> "printf", f |-> <<EEsc("n")>>],
+             [k |-> "fprint", s |-> Cp("/dev/stdout")], [k |-> "fprintf", s |-> Cp("/dev/null"), f |-> FNl], [k |-> "fls", s |-> Cp("-")],
              [k |-> "fprint", s |-> Cp("o")], [k |-> "fprint0", s |-> Cp("o")], [k |-> "fprintf", s |-> Cp("o"), f |-> FNl],
              [k |-> "fls", s |-> Cp("o")], [k |-> "ls"], [k |-> "quit"], [k |-> "printfid"], [k |-> "prune"],
              [k |-> "defaultprint"], [k |-> "g_depth"], [k |-> "g_threads", n |-> <<4>>], [k |-> "xdev"],
